@@ -74,6 +74,15 @@ def custom(d):
         if base:
             return False, "no-checker"
         try:
+            conf_alone = fc.conforms(x, name)
+            escaped = None
+        except KeyError as e:
+            escaped = e
+        except Exception as e:
+            raise HarnessEscape(type(e).__name__)
+        if (escaped is not None) != (known and sel == 7) or (escaped is not None and escaped is not unlisted):
+            return False, "conforms-alone"
+        try:
             errs = list(cls({"format": name}, format_checker=fc).iter_errors(x))
             conf = fc.conforms(x, name)
         except KeyError as e:
